@@ -512,7 +512,8 @@ static int preparePublicationRequest(KSI_NetworkClient *client, KSI_RequestHandl
 		goto cleanup;
 	}
 
-	sendPublicationRequest(client, tmp, endp->path);
+	res = sendPublicationRequest(client, tmp, endp->path);
+	if (res != KSI_OK) goto cleanup;
 
 	*handle = tmp;
 	tmp = NULL;
